@@ -2,6 +2,7 @@
 from __future__ import annotations
 from fractions import Fraction as Fr
 import math
+import numpy as np
 from .. import common
 from ..runner import Corr, Failure
 
@@ -233,6 +234,15 @@ def sample(ctx, budget=1.0, hint=None, broken=None):
                 cur = segs[-1].end
                 if not cont and r.random() < 0.4:
                     cur += complex(r.uniform(0.5, 2), r.uniform(0.5, 2))
+        if cls == 'dyadic' and r.random() < 0.35:
+            # the same kind of path spelt with whole numbers: Lines on the real axis whose end points are Python ints or numpy ints
+            # (every length is then an int object too)
+            ity = r.choice([int, int, np.int64, np.int32])
+            xs_ = [r.randint(-20, 20)]
+            for _ in range(n):
+                xs_.append(xs_[-1] + r.choice([1, 2, 3, 10, -4, 20]))
+            segs = [P.Line(ity(a_), ity(b_)) for a_, b_ in zip(xs_, xs_[1:])]
+            cls = 'int-typed'
         path = P.Path(*segs)
         desc = repr(path)
         n_eval += 1
